@@ -487,6 +487,7 @@ impl State {
         s.push_str(&format!("tasks_run={}\n", self.tasks_run));
         s.push_str(&format!("tasks_pending={}\n", self.bag.len()));
         s.push_str(&format!("threads={}\n", self.threads.len()));
+        s.push_str(&format!("pool_size={}\n", self.pool_size));
         s.push_str(&format!("decisions={}\n", self.decisions.len()));
         s.push_str(&format!("trace_hash={:016x}\n", self.trace_hash));
         for f in &self.faults_fired {
